@@ -3,6 +3,8 @@
 mod e1;
 #[cfg(feature = "conc")]
 mod e2;
+#[cfg(all(feature = "hooks", not(feature = "conc")))]
+mod e4;
 mod evid;
 mod mon;
 mod mon2;
